@@ -157,7 +157,7 @@ def diagpoly(s):
 def c08(rng, tier):
     a = A(); U = a.UTPM; import scipy.linalg
     T = PA.transpose
-    DPs = [(1, 1), (3, 2), (5, 1)] if tier == 'quick' else [(1, 1), (2, 1), (4, 2), (6, 2)]
+    DPs = [(1, 1), (3, 2), (5, 1), (7, 1)] if tier == 'quick' else [(1, 1), (2, 1), (4, 2), (6, 2), (8, 1)]          # D >= 6: the order-by-order loops have index arithmetic that only shows late
     for (D, P) in DPs:
         # ---------------- QR (reduced): square, tall, wide
         for (m, n) in ((1, 1), (2, 2), (3, 3), (4, 2), (3, 2), (2, 4)):
@@ -303,6 +303,44 @@ def c08_scaled(rng, tier):
                     d1 = [t.data if isinstance(t, U) else numpy.asarray(t) for t in r1]; d2 = [t.data if isinstance(t, U) else numpy.asarray(t) for t in r2]
                     yield case, (None if len(d1) == len(d2) == 3 and rel(d2[0], d1[0]) and rel(d2[1], d1[1]) and rel(d2[2], s_ * d1[2]) else 'lu(s A) is not (P, L, s U) of lu(A) for s = %g' % s_)
                 except Exception as e: yield case, 'raises %s: %s' % (type(e).__name__, str(e)[:100])
+
+
+def c12_factorizations(rng, tier):
+    """C12 for the factorizations: the coefficients < D' of the factors computed with D coefficients equal the factors computed from the
+    input truncated to D'.  Compared are the uniquely determined quantities: Q, R of qr; L of cholesky; the factors of lu; eigenvalues and
+    eigenvectors of eigh for distinct eigenvalues; for an exactly repeated eigenvalue (eigenvectors not unique across D) the eigenvalues and
+    the invariant Q diag(lambda^2) Q^T.  D = 7, D' in {3, 6}: order-by-order loops have index arithmetic that only shows late."""
+    a = A(); U = a.UTPM; T = PA.transpose
+    D = 7; P = 2 if tier != 'quick' else 1
+    def outs(name, Ad):
+        if name == 'qr': Q, R = a.qr(U(Ad.copy())); return [Q.data, R.data]
+        if name == 'cholesky': return [a.cholesky(U(Ad.copy())).data]
+        if name == 'lu': return [t.data for t in a.lu(U(Ad.copy())) if isinstance(t, U)]
+        l, Q = a.eigh(U(Ad.copy()))
+        if name == 'eigh[distinct]': return [l.data, Q.data]
+        return [l.data, PA.matmul(PA.matmul(Q.data, diagpoly(PA.mul(l.data, l.data))), T(Q.data))]
+    for name in ('qr', 'cholesky', 'lu', 'eigh[distinct]', 'eigh[repeated]'):
+        for n in (2, 3, 4):
+            if name == 'qr': Ad = poly(rng, D, P, (n + 1, n), base=lambda p: rnd_arr(rng, (n + 1, n)) + numpy.eye(n + 1, n) * (2 + p))
+            elif name == 'lu': Ad = poly(rng, D, P, (n, n), base=lambda p: wellcond(rng, n, p, pivot=bool(p % 2)))
+            else:
+                Ad = poly(rng, D, P, (n, n)); Ad = Ad + T(Ad)
+                for p in range(P):
+                    if name == 'cholesky': B = rnd_arr(rng, (n, n)); Ad[0, p] = B.dot(B.T) + (1.5 + p) * numpy.eye(n)
+                    else:
+                        q0, _ = numpy.linalg.qr(rnd_arr(rng, (n, n)) + 2 * numpy.eye(n)); lam = numpy.arange(1., n + 1) + 0.5 * p
+                        if name == 'eigh[repeated]': lam[1] = lam[0]
+                        Ad[0, p] = q0.dot(numpy.diag(lam)).dot(q0.T)
+            case = {'fn': name, 'n': n, 'D': D, 'P': P}
+            try:
+                full = outs(name, Ad); f = None
+                for Dp in (3, 6):
+                    part = outs(name, Ad[:Dp])
+                    for k_, (u, v) in enumerate(zip(full, part)):
+                        if not close(u[:Dp], v, 1e-7): f = 'output %d: coefficients < %d computed with D = %d differ from those computed with D = %d (max %.3g)' % (k_, Dp, D, Dp, float(numpy.abs(u[:Dp] - v).max())); break
+                    if f: break
+                yield case, f
+            except Exception as e: yield case, 'raises %s: %s' % (type(e).__name__, str(e)[:100])
 
 
 c07_all = with_patterns(c07)
